@@ -176,11 +176,24 @@ def run_task(spec):
         e = Explorer(spec.name, task, REPO, timeout_ms=spec.timeout_ms)
         e.spec = spec
         e.run()
+        full_runs = {}
         for ob in e.obligations:
             d = ob.to_json()
             if ob.verdict != "discharged":
                 d["witness"] = ob.witness
+                # the complete-solver confirmation is expensive: once per obligation name, at most 6 per task
+                key = re.sub(r"\[[^\]]*\]", "[]", ob.name)
+                if key in full_runs or len(full_runs) >= 6:
+                    ob.formulas_saved, ob.formulas = ob.formulas, None
+                    prev = full_runs.get(key)
+                else:
+                    prev = None
                 d["confirm"] = confirm(ob, spec)
+                if ob.formulas is None and ob.verdict != "refuted":
+                    # not reproduced natively and no solver run of its own: inherit the verdict of the first instance
+                    ob.verdict = prev if prev else "undecided"
+                    ob.note = "same obligation on another path; verdict of its first instance"
+                full_runs.setdefault(key, ob.verdict)
                 d["verdict"] = ob.verdict
                 d["note"] = ob.note
             res["obligations"].append(d)
